@@ -524,6 +524,27 @@ func runC20(h *Harness) {
 				return
 			}
 		}
+		// a background first load that is overtaken: the first handshake for a new location finds its origin down (the
+		// entry exists, nothing is loaded); the origin recovers; the next refresh cycle starts loading the entry and is
+		// served slowly; a handshake arriving meanwhile loads the list itself. Whoever loses must leave nothing behind.
+		if tp.Chance(1, 3) {
+			lo := w.NewLocation(LocOpts{Name: fmt.Sprintf("LO%d", c), URL: fmt.Sprintf("http://late%d.sim/o.crl", c), Issuer: w.A, NVers: 1, Extra: Pick(tp, 1, 30), Width: 13, Base: uint32(8 + c)})
+			lo.State = oDown
+			h.Handshake(n, "late/down", w.ChainFor(lo.Cert(lo.Never[0]), w.A))
+			lo.State, lo.Fetches, lo.SlowFirst = oGood, 0, 3*time.Second
+			h.S.Run(func(v schedView) bool { return lo.Fetches > 0 }, h.S.Now()+11*time.Minute)
+			if lo.Fetches > 0 {
+				h.Probe("background-first-load-overtaken")
+			}
+			h.Handshake(n, "late/overtake", w.ChainFor(lo.Cert(lo.Never[0]), w.A))
+			h.Settle(30 * time.Second)
+			h.Quiesce()
+			h.R.NonTrivial = true
+			checkQuiescent(n, fmt.Sprintf("cycle %d after a background first load was overtaken by a handshake", c+1))
+			if len(h.R.Violations) > 0 {
+				return
+			}
+		}
 		// Cleanup, possibly while a refresh is in flight
 		if tp.Chance(1, 2) {
 			h.S.Run(func(v schedView) bool {
